@@ -313,6 +313,35 @@ def run(ctx):
                         else:
                             o5.undecided(f"topology column value `{txt(arg)}` not recognised", fn, n)
 
+    # ------------------------------------------------------------------ C02.7
+    with ctx.obligation("C02.7", "the vertex list handed to a build callback is a fresh object per motif instance", floor=2) as o:
+        for qn, g in gens.items():
+            fn = g.fn
+            loop, bc, es = _iteration_loop(g)
+            arg = bc.args[0] if len(bc.args) == 1 else None
+            if arg is None:
+                o.undecided("build callback called with unexpected arguments", fn, bc)
+                continue
+            a = arg
+            if isinstance(a, ast.Call) and txt(a.func) in ("list", "tuple", "sorted") or isinstance(a, (ast.ListComp, ast.List, ast.Tuple)):
+                o.holds(fn, bc, f"`{txt(a)}` builds a new sequence for every call")
+                continue
+            if isinstance(a, ast.Name):
+                binds_in = [s_ for s_ in ast.walk(loop) if isinstance(s_, (ast.Assign, ast.AnnAssign)) and s_.value is not None
+                            and txt(s_.targets[0] if isinstance(s_, ast.Assign) else s_.target) == a.id]
+                is_target = any(a.id in astx.names_in(l.target) for l in [loop])
+                muts = [n for n in ast.walk(loop) if isinstance(n, ast.Call) and isinstance(n.func, ast.Attribute) and n.func.attr in ("clear", "extend", "append", "insert", "pop")
+                        and txt(n.func.value) == a.id]
+                if binds_in or is_target:
+                    o.holds(fn, bc, f"`{a.id}` is bound to a new object inside every motif iteration")
+                elif muts:
+                    o.violated(fn, muts[0], f"`{a.id}` is ONE list created outside the motif loop and refilled in place ({txt(muts[0])[:40]}) for every motif: a build callback that returns its "
+                                            "argument (the supported bare-edge form) makes every stored row alias this buffer, so all rows are rewritten by the next motif")
+                else:
+                    o.undecided(f"origin of the build argument `{a.id}` not recognised", fn, bc)
+            else:
+                o.undecided(f"build argument `{txt(a)}` not recognised", fn, bc)
+
     # ------------------------------------------------------------------ C02.2
     with ctx.obligation("C02.2", "the re-pack branch can only be taken by a bare edge, never by a list of two edges") as o:
         g = gens[gen_common.GENERATORS[1]]
